@@ -33,7 +33,9 @@ CLAIM = dict(
           "over generated header sets x queries x every index order; the property text is evaluated on the "
           "implementation's results as the search oracle."),
     note=("Keys that are proper prefixes of language/region/locale are outside the model (type confusion in the C code, "
-          "reported as a finding); an empty index is modelled with LOUIS_TABLEPATH pointing to an empty directory."),
+          "finding C18-F3); an empty index is modelled with LOUIS_TABLEPATH pointing to an empty directory; "
+          "lou_getTableInfo breaks the first-occurrence clause when a later line repeats an earlier key:value (C18-F1) "
+          "and never answers for the key `locale` (C18-F2); both are listed in known_findings.json."),
     technique="Lean 4 proof over a hand-written model + regex-extracted constants + differential testing + oracle search",
     design="DESIGN.md §7 C18")
 
@@ -292,6 +294,21 @@ class MetaCase:
                     "query": self.queries[b][0].decode("latin-1"), "index_order": [H[i].name for i in self.orders[a]]}
         lines.append(self.hlines[upto])
         return {"harness_script": lines, "cwd": "a fresh empty directory", "files": files}
+
+
+def run_model(lines, tries=2):
+    """common.run_model with the exit status in the error and one retry (a killed driver must not
+    be mistaken for a disagreement)"""
+    import subprocess
+    last = ""
+    for _ in range(tries):
+        p = subprocess.run([common.model_exe()], input="\n".join(lines) + "\n", stdout=subprocess.PIPE,
+                           stderr=subprocess.PIPE, text=True, timeout=3600)
+        if p.returncode == 0:
+            out = p.stdout.split("\n")
+            return out[:-1] if p.stdout.endswith("\n") else out
+        last = "exit status %s after %d output lines: %s" % (p.returncode, p.stdout.count("\n"), p.stderr[-1000:])
+    raise RuntimeError("model driver failed: " + last)
 
 
 def parse_result(line):
@@ -629,7 +646,11 @@ def oracle(mc, res, v):
         v.cov["dominance_evaluations"] = v.cov.get("dominance_evaluations", 0) + 1
         if answers != {name} and answers != {None}:
             oi = next(o for o, (fr, _, _) in per_order.items() if fr != name)
-            v.violation("C18:dominance", "table %s dominates every other indexed table for query %r (profiles %r) but "
+            # the ucs2-for-ucs4 rule is applied even when the table declares ucs4 as well (ucs2 sorts first)
+            both = any(k == "unicode-range" and qv.lower() == "ucs4" for k, qv in qf) and any(
+                {"ucs2", "ucs4"} <= set(v.lower() for k, v in effective(active_fields(H[ti])) if k == "unicode-range") for ti in idx)
+            v.violation("C18:dominance:ucs2-and-ucs4" if both else "C18:dominance",
+                        "table %s dominates every other indexed table for query %r (profiles %r) but "
                         "lou_findTable answered %r over the index orders" % (H[t].name, qb, profs, sorted(answers, key=repr)),
                         mc.replay(per_order[oi][2]))
         if answers == {name}:
@@ -708,7 +729,7 @@ def run(tier):
         mlines = [l for m in mcs for l in m.mlines]
         nlines[0] += len(mlines)
         with ThreadPoolExecutor(1) as ex:
-            fut = ex.submit(common.run_model, mlines, 3600)
+            fut = ex.submit(run_model, mlines)
             common.run_cases(exe, cases, batch=40 if quick else 100)
             mout = fut.result()
         pos = 0
